@@ -27,12 +27,14 @@ func init() {
 				"'above the limit' exactly when that stamp is set and not older than the interval.",
 			NotCovered: "that the ring buffer of golibs behaves as a ring (trusted), so that R7's structure (limit+1 slots, push before read, comparison with " +
 				"the interval) yields an exact sliding window; the expiry timing of the backoff tables (temporal facts outside static reach); the allowlist's own matching.",
-			Rules: map[string]string{"C09-R11": "list setters (DynamicAllowlist.Update, …) replace the list: no append onto the previous contents of the same field", "C09-R1": "middleware gate tables", "C09-R2": "limiter check order, family selection, keying", "C09-R3": "profile limiter table",
+			Rules: map[string]string{"C09-R12": "DynamicAllowlist.IsAllowed: exempt exactly when some persistent or dynamic subnet contains the address; the dynamic part is read under the lock; constructor field map", "C09-R11": "list setters (DynamicAllowlist.Update, …) replace the list: no append onto the previous contents of the same field", "C09-R1": "middleware gate tables", "C09-R2": "limiter check order, family selection, keying", "C09-R3": "profile limiter table",
 				"C09-R4": "window counter under its lock", "C09-R9": "builder wiring: the configured allowlist is the persistent part of the dynamic allowlist", "C09-R8": "the dynamic allowlist is replaced only after a successful load (a failed refresh keeps the previous allowlist)", "C09-R7": "window counter structure: the ring holds limit+1 time stamps; every event (also one that is dropped) is pushed before the oldest one is read; the event is above the limit iff the oldest kept stamp is set and within the interval", "C09-R5": "every estimated response is counted", "C09-R6": "configuration-to-limiter field map (each family's count, interval and key length under its own name)"},
 		}})
 }
 
 func runC09(c *an.Ctx) {
+	c.Floor("C09-R12", 3)
+	c09AllowlistTable(c)
 	// ---- R11: an allowlist refresh replaces the dynamic part (a subnet dropped by the source stops being exempt)
 	if n := sharedReplaceNotAccumulate(c, "C09-R11", "dnsserver/ratelimit.", "consul.", "backendpb.", "agd."); n >= 1 {
 		c.Ok("C09-R11", "list setters of the rate-limit code replace, never accumulate", token.NoPos, "%d slice-field stores in Update/Set/Reset methods examined", n)
@@ -681,5 +683,64 @@ func c09GetOrCreate(c *an.Ctx, rule string, fnNames ...string) {
 		if inserts == 0 {
 			c.Bad(rule, name+" inserts into "+table+" only when the entry is missing", fn.Pos(), "a missing entry is never inserted into "+table)
 		}
+	}
+}
+
+// c09AllowlistTable holds the table of the two-part allowlist: an address is exempt
+// exactly when some persistent or some dynamic subnet contains it, every subnet
+// of both parts is consulted, the dynamic part is read under the read lock, and
+// the constructor puts each list into its own field.
+func c09AllowlistTable(c *an.Ctx) {
+	const fnKey = "dnsserver/ratelimit.(*DynamicAllowlist).IsAllowed"
+	dom := an.Domain{"len(p0.persistent)": an.Ints(0, 1, 2), "len(p0.dynamic)": an.Ints(0, 1, 2)}
+	for _, part := range []string{"persistent", "dynamic"} {
+		for i := 0; i < 2; i++ {
+			dom[fmt.Sprintf("in:p0.%s[%d]", part, i)] = an.Bools
+		}
+	}
+	decide(c, "C09-R12", fnKey, an.DecideCfg{
+		Dom: dom,
+		OnCall: func(it *an.Interp, name string, args []an.AV) (an.AV, bool) {
+			if name == "(net/netip.Prefix).Contains" {
+				if args[1].String() != "p2" {
+					return an.Sym("membership of " + args[1].String()), true
+				}
+				return it.Feature("in:" + args[0].String()), true
+			}
+			return an.AV{}, false
+		},
+		Expect: func(f an.Features, o an.AOutcome) string {
+			want := false
+			for _, part := range []string{"persistent", "dynamic"} {
+				for i := int64(0); i < f.I("len(p0."+part+")"); i++ {
+					if f.B(fmt.Sprintf("in:p0.%s[%d]", part, i)) {
+						want = true
+					}
+				}
+			}
+			if o.RetString() != fmt.Sprintf("%v, nil", want) {
+				return fmt.Sprintf("allowed=%v (some subnet of either part contains the address; every subnet is consulted); got %s", want, o.RetString())
+			}
+			return ""
+		},
+	})
+	checkFieldMap(c, "C09-R12", "dnsserver/ratelimit.NewDynamicAllowlist", "dnsserver/ratelimit.DynamicAllowlist", map[string]string{"persistent": "p0", "dynamic": "p1"})
+	// the dynamic part is read with the lock held
+	if fn := c.Fn(fnKey); fn != nil {
+		held := an.HeldLocks(fn)
+		n, bad := 0, ""
+		an.Instrs(fn, func(in ssa.Instruction) {
+			ld, ok := in.(*ssa.UnOp)
+			if !ok || ld.Op != token.MUL {
+				return
+			}
+			if typ, field, _, ok := an.FieldOf(ld.X); ok && typ == "dnsserver/ratelimit.DynamicAllowlist" && field == "dynamic" {
+				n++
+				if h := held[in]; len(h) == 0 {
+					bad = "the dynamic list is read without the lock"
+				}
+			}
+		})
+		c.Check(n > 0 && bad == "", "C09-R12", fnKey+" reads the dynamic part under its lock", fn.Pos(), "read under the lock that Update takes", bad)
 	}
 }
